@@ -517,6 +517,246 @@ theorem submitIdleLoads_inv (W : World Node VH V) (ht : Ht) (aw : Nat → Option
     simp only
     exact ⟨m2, e2, i2, g1.trans f1, g2.trans f2, g3.trans f3, g4, g5.trans f5, g6.trans f8⟩
 
+/-! ### helpers for `submit_key_path_request` -/
+
+theorem reqOK_ios {W : World Node VH V} {ps : PageSet Node} {r : Req Node VH V} {a : Option Query} (h : ReqOK W ps r a)
+    (n : Nat) : ReqOK W ps { r with ios := n } a :=
+  ⟨⟨h.1.klen, h.1.wf, h.1.raw, h.1.through, h.1.sibs⟩, h.2.1, h.2.2⟩
+
+theorem reqMeasure_ios (N : Nat) (r : Req Node VH V) (a : Option Query) (n : Nat) :
+    reqMeasure N { r with ios := n } a = reqMeasure N r a := rfl
+
+theorem sum_set_eq {α : Type} (f : α → Nat) : ∀ (l : List α) (i : Nat) (x y : α), l[i]? = some x →
+    ((l.set i y).map f).sum + f x = (l.map f).sum + f y
+  | [], i, x, y, h => by simp at h
+  | a :: as, 0, x, y, h => by
+    simp only [List.getElem?_cons_zero, Option.some.injEq] at h
+    subst h
+    simp only [List.set_cons_zero, List.map_cons, List.sum_cons]
+    omega
+  | a :: as, i + 1, x, y, h => by
+    simp only [List.getElem?_cons_succ] at h
+    have := sum_set_eq f as i x y h
+    simp only [List.set_cons_succ, List.map_cons, List.sum_cons]
+    omega
+
+/-- a decrease of the system's measure by an operation on request `i` is a decrease of that request's measure -/
+theorem measure_of_sys {N : Nat} {s : Sys Node VH V} {i : Nat} {x y : Req Node VH V × Option Query}
+    (hi : s.reqs[i]? = some x) {ps' : PageSet Node} {cache' : List (PageId × MPage Node)}
+    (h : sysMeasure N { ps := ps', cache := cache', reqs := s.reqs.set i y } < sysMeasure N s) :
+    reqMeasure N y.1 y.2 < reqMeasure N x.1 x.2 := by
+  unfold sysMeasure at h
+  have := sum_set_eq (fun x => reqMeasure N x.1 x.2) s.reqs i x y hi
+  simp only at this h
+  omega
+
+theorem lookup_mem {β : Type} : ∀ (ws : List (Query × β)) (q : Query) (w : β), ws.lookup q = some w → (q, w) ∈ ws
+  | [], q, w, h => by simp at h
+  | (q', w') :: rest, q, w, h => by
+    simp only [List.lookup_cons] at h
+    by_cases e : q = q'
+    · subst e
+      simp at h
+      subst h
+      exact List.mem_cons_self ..
+    · have : (q == q') = false := by simpa using e
+      rw [this] at h
+      exact List.mem_cons_of_mem _ (lookup_mem rest q w h)
+
+theorem lookup_none {β : Type} : ∀ (ws : List (Query × β)) (q : Query), ws.lookup q = none → q ∉ ws.map (·.1)
+  | [], q, _ => by simp
+  | (q', w') :: rest, q, h => by
+    simp only [List.lookup_cons] at h
+    by_cases e : q = q'
+    · subst e; simp at h
+    · have : (q == q') = false := by simpa using e
+      rw [this] at h
+      simp only [List.map_cons, List.mem_cons, not_or]
+      exact ⟨e, lookup_none rest q h⟩
+
+/-- a request starts to wait: it goes onto a waiter list (an existing one, or a new one at the end) -/
+theorem wait_inv (W : World Node VH V) (ht : Ht) (m : Mux Node VH V) (aw : Nat → Option Query) (h : MInv W ht m aw)
+    (idx : Nat) (r r1 : Req Node VH V) (q : Query) (hp : m.processed ≤ idx) (hi : m.reqs[idx - m.processed]? = some r)
+    (ha : aw idx = none) (hid : idx ∉ m.idleReqs) (hr1 : ReqOK W m.ps r1 (some q)) (ws' : List (Query × List Nat))
+    (hk : (ws'.map (·.1)).Nodup)
+    (hmem : ∀ q' w', (q', w') ∈ ws' → (q', w') ∈ m.waiters ∨
+      (q' = q ∧ ((∃ w0, (q, w0) ∈ m.waiters ∧ w' = w0 ++ [idx]) ∨ w' = [idx]))) :
+    MInv W ht { m with reqs := m.reqs.set (idx - m.processed) r1, waiters := ws' } (upd aw idx (some q)) := by
+  have hlt : idx - m.processed < m.reqs.length := (List.getElem?_eq_some_iff.1 hi).1
+  have hpi : m.processed + (idx - m.processed) = idx := by omega
+  refine ⟨?_, hk, ?_, h.idleN, ?_, h.slabwf, h.merk, h.inflN, h.infl, h.idleLN, h.idleL⟩
+  · have : absSys { m with reqs := m.reqs.set (idx - m.processed) r1, waiters := ws' } (upd aw idx (some q)) =
+        { ps := m.ps, cache := m.cache, reqs := (absSys m aw).reqs.set (idx - m.processed) (r1, some q) } := by
+      simp only [absSys]
+      have := tag_set_upd aw m.reqs m.processed (idx - m.processed) r1 (some q)
+      rw [hpi] at this
+      rw [this]
+    rw [this]
+    exact sysinv_set h.sys h.sys.ps (ext_refl _) h.sys.mem _ hr1
+  · intro q' w' hqw
+    simp only [List.length_set]
+    have old : ∀ w0, (q', w0) ∈ m.waiters → w0.Nodup ∧ ∀ idx' ∈ w0, upd aw idx (some q) idx' = some q' ∧ m.processed ≤ idx' ∧
+        idx' < m.processed + m.reqs.length := by
+      intro w0 h0
+      obtain ⟨n0, h2⟩ := h.wmem q' w0 h0
+      refine ⟨n0, fun idx' hidx' => ?_⟩
+      obtain ⟨a, b, c⟩ := h2 idx' hidx'
+      have : idx' ≠ idx := fun e => by rw [e, ha] at a; cases a
+      exact ⟨by rw [upd_ne _ _ this]; exact a, b, c⟩
+    rcases hmem q' w' hqw with h0 | ⟨rfl, ⟨w0, h0, rfl⟩ | rfl⟩
+    · exact old w' h0
+    · obtain ⟨n0, h2⟩ := old w0 h0
+      have hni : idx ∉ w0 := by
+        intro hm
+        have := (h.wmem q' w0 h0).2 idx hm
+        rw [ha] at this; cases this.1
+      refine ⟨?_, fun idx' hidx' => ?_⟩
+      · rw [List.nodup_append]
+        refine ⟨n0, by simp, ?_⟩
+        intro a ha' b hb
+        have : b = idx := by simpa using hb
+        subst this
+        exact fun e => hni (e ▸ ha')
+      · rcases List.mem_append.1 hidx' with h3 | h3
+        · exact h2 idx' h3
+        · have : idx' = idx := by simpa using h3
+          subst this
+          exact ⟨upd_self _ _ _, hp, by omega⟩
+    · refine ⟨by simp, fun idx' hidx' => ?_⟩
+      have : idx' = idx := by simpa using hidx'
+      subst this
+      exact ⟨upd_self _ _ _, hp, by omega⟩
+  · intro idx' hidx'
+    simp only [List.length_set]
+    obtain ⟨a, b⟩ := h.idle idx' hidx'
+    have : idx' ≠ idx := fun e => hid (e ▸ hidx')
+    exact ⟨by rw [upd_ne _ _ this]; exact a, b⟩
+
+/-- the `Occupied` arm of `io_waiters.entry(..)` -/
+theorem join_inv (W : World Node VH V) (ht : Ht) (m : Mux Node VH V) (aw : Nat → Option Query) (h : MInv W ht m aw)
+    (idx : Nat) (r r1 : Req Node VH V) (q : Query) (hp : m.processed ≤ idx) (hi : m.reqs[idx - m.processed]? = some r)
+    (ha : aw idx = none) (hid : idx ∉ m.idleReqs) (hr1 : ReqOK W m.ps r1 (some q))
+    (res : Outcome Unit (List (Query × List Nat))) (hj : joinWaiters m.waiters q idx = some res) :
+    ∃ ws, res = .ok ws ∧
+      MInv W ht { m with reqs := m.reqs.set (idx - m.processed) r1, waiters := ws } (upd aw idx (some q)) := by
+  unfold joinWaiters at hj
+  cases hl : m.waiters.lookup q with
+  | none => rw [hl] at hj; cases hj
+  | some w =>
+    rw [hl] at hj
+    simp only at hj
+    have hqw := lookup_mem _ _ _ hl
+    have hni : idx ∉ w := by
+      intro hm
+      have := (h.wmem q w hqw).2 idx hm
+      rw [ha] at this; cases this.1
+    have hc : w.contains idx = false := by simpa using hni
+    rw [hc] at hj
+    simp only [Bool.false_eq_true, if_false, Option.some.injEq] at hj
+    subst hj
+    refine ⟨_, rfl, wait_inv W ht m aw h idx r r1 q hp hi ha hid hr1 _ ?_ ?_⟩
+    · have : (m.waiters.map (fun e => if e.1 = q then (e.1, e.2 ++ [idx]) else e)).map (·.1) = m.waiters.map (·.1) := by
+        rw [List.map_map]
+        apply List.map_congr_left
+        intro e _
+        simp only [Function.comp]
+        split <;> rfl
+      rw [this]; exact h.wkeys
+    · intro q' w' hm
+      obtain ⟨e, he, hf⟩ := List.mem_map.1 hm
+      by_cases hq : e.1 = q
+      · rw [if_pos hq] at hf
+        cases hf
+        exact .inr ⟨hq, .inl ⟨e.2, by rw [← hq]; exact he, rfl⟩⟩
+      · rw [if_neg hq] at hf
+        subst hf
+        exact .inl he
+
+/-- the `Vacant` arm: a new waiter list at the end -/
+theorem newWait_inv (W : World Node VH V) (ht : Ht) (m : Mux Node VH V) (aw : Nat → Option Query) (h : MInv W ht m aw)
+    (idx : Nat) (r r1 : Req Node VH V) (q : Query) (hp : m.processed ≤ idx) (hi : m.reqs[idx - m.processed]? = some r)
+    (ha : aw idx = none) (hid : idx ∉ m.idleReqs) (hr1 : ReqOK W m.ps r1 (some q))
+    (hj : joinWaiters m.waiters q idx = none) :
+    MInv W ht { m with reqs := m.reqs.set (idx - m.processed) r1, waiters := m.waiters ++ [(q, [idx])] }
+      (upd aw idx (some q)) := by
+  have hl : m.waiters.lookup q = none := by
+    unfold joinWaiters at hj
+    cases hl : m.waiters.lookup q with
+    | none => rfl
+    | some w => rw [hl] at hj; simp only at hj; split at hj <;> cases hj
+  refine wait_inv W ht m aw h idx r r1 q hp hi ha hid hr1 _ ?_ ?_
+  · simp only [List.map_append, List.map_cons, List.map_nil]
+    rw [List.nodup_append]
+    refine ⟨h.wkeys, by simp, ?_⟩
+    intro a ha' b hb
+    have : b = q := by simpa using hb
+    subst this
+    exact fun e => lookup_none _ _ hl (e ▸ ha')
+  · intro q' w' hm
+    rcases List.mem_append.1 hm with h0 | h0
+    · exact .inl h0
+    · have : (q', w') = (q, [idx]) := by simpa using h0
+      cases this
+      exact .inr ⟨rfl, .inr rfl⟩
+
+/-- `io_slab.insert(..)` of a load that is not yet submitted / in flight -/
+theorem slabInsert_inv (W : World Node VH V) (ht : Ht) (m : Mux Node VH V) (aw : Nat → Option Query) (h : MInv W ht m aw)
+    (v : IoReq) (hv : ∀ pid k sub, v = .merkle pid k sub → PageFacts W pid ∧ ProbeOK ht pid k sub) :
+    ∃ slab si, m.slab.insert v = .ok (slab, si) ∧ MInv W ht { m with slab := slab } aw ∧ slab.get si = some v ∧
+      si ∉ m.idleLoads ∧ si ∉ m.inflight.map (·.1) := by
+  obtain ⟨slab, si, e1, e2, e3, e4, e5⟩ := Slab.insert_ok m.slab h.slabwf v
+  have hnl : si ∉ m.idleLoads := by
+    intro hm
+    obtain ⟨_, _, e⟩ := h.idleL si hm
+    rw [e3] at e; cases e
+  have hni : si ∉ m.inflight.map (·.1) := by
+    intro hm
+    obtain ⟨⟨u, c⟩, hc, hu⟩ := List.mem_map.1 hm
+    simp only at hu; subst hu
+    rcases h.infl u c hc with ⟨_, _, _, e, _⟩ | ⟨_, e, _⟩
+    · rw [e3] at e; cases e
+    · rw [e3] at e; cases e
+  refine ⟨slab, si, e1, ⟨h.sys, h.wkeys, h.wmem, h.idleN, h.idle, e2, ?_, h.inflN, ?_, h.idleLN, ?_⟩, e4, hnl, hni⟩
+  · intro si' pid k sub hg
+    by_cases hs : si' = si
+    · subst hs
+      simp only at hg
+      rw [e4] at hg
+      exact hv pid k sub (Option.some.inj hg)
+    · simp only at hg
+      rw [e5 si' hs] at hg
+      exact h.merk si' pid k sub hg
+  · intro u c hc
+    have hne : u ≠ si := fun e => hni (by rw [← e]; exact List.mem_map.2 ⟨(u, c), hc, rfl⟩)
+    unfold InflOK
+    simp only
+    rw [e5 u hne]
+    exact h.infl u c hc
+  · intro si' hs'
+    have hne : si' ≠ si := fun e => hnl (e ▸ hs')
+    simp only
+    rw [e5 si' hne]
+    exact h.idleL si' hs'
+
+/-- the leaf read goes to the I/O pool -/
+theorem leafRead_inv (W : World Node VH V) (ht : Ht) (m : Mux Node VH V) (aw : Nat → Option Query) (h : MInv W ht m aw)
+    (si l : Nat) (hg : m.slab.get si = some (.leaf l)) (hni : si ∉ m.inflight.map (·.1)) :
+    MInv W ht { m with inflight := m.inflight ++ [(si, .leaf l)] } aw := by
+  refine ⟨h.sys, h.wkeys, h.wmem, h.idleN, h.idle, h.slabwf, h.merk, ?_, ?_, h.idleLN, h.idleL⟩
+  · simp only [List.map_append, List.map_cons, List.map_nil]
+    rw [List.nodup_append]
+    refine ⟨h.inflN, by simp, ?_⟩
+    intro a ha b hb
+    have : b = si := by simpa using hb
+    subst this
+    exact fun e => hni (e ▸ ha)
+  · intro u c hc
+    rcases List.mem_append.1 hc with h1 | h1
+    · exact h.infl u c h1
+    · have : (u, c) = (si, Cmd.leaf l) := by simpa using h1
+      cases this
+      exact .inr ⟨l, hg, rfl⟩
+
 end inv
 
 end Nomt.Seeker
